@@ -22,18 +22,29 @@ DECIDED = [
     "consumer shutdown and Redis maintenance; the runner cancels the processing task before returning its message; maintenance rejects only after the execution timeout",
     "R-C14-TAKE (bounce): a RabbitMQ delivery that was bounced is not also registered / handed to the local queue",
     "R-C14-REDELIVER (finish): C03's finish rules reused - every prefetched message is returned individually by its own tag",
+    "R-C14-TAKE (round 6 + sweep): the Redis fetch keeps no names between calls; RabbitMQ delivery decision table",
+    "R-C14-AWAITED: in the files this property is anchored in, no bare statement calls a coroutine function (the operation would never run)",
 ]
 NOT_DECIDED = ["cross-process interleavings as such", "RabbitMQ's server-side exclusive delivery of unacked messages (trusted)"]
 ASSUMPTIONS = ["asyncio atomicity between awaits (single process)", "Redis MULTI/EXEC atomicity"]
 
 
 def run(ctx: Ctx) -> None:
+    from .shared import every_operation_awaited
+
+    every_operation_awaited(ctx, "R-C14-AWAITED")  # in the files this property is anchored in, no asynchronous operation is created and dropped
+    from .brokers import rabbit_delivery_table
+
+    rabbit_delivery_table(ctx, "R-C14-TAKE")  # RabbitMQ: a delivery is either bounced to the server or remembered (tag) and handed out - never both, never neither
     inmem_consume_rules(ctx, rule_t="R-C14-TAKE", rule_a="R-C14-TAKE")
     redis_txn_rules(ctx, ops=(), rule_t="R-C14-TAKE", rule_a="R-C14-TAKE")
     redis_take_reply(ctx)
     inmem_transfer_atomic(ctx, ops=("reject", "requeue"), rule_t="R-C14-REDELIVER", rule_a="R-C14-REDELIVER")
     rabbit_rules(ctx, rule_t="R-C14-REDELIVER", rule_a="R-C14-REDELIVER", atomic_finding=False)
     finish_own(ctx)
+    from .brokers import redis_fetch_reads_server
+
+    redis_fetch_reads_server(ctx, "R-C14-TAKE")
     terminal_callers_rule(ctx, "R-C14-REDELIVER", ops=("reject", "requeue"))
     race(ctx, "R-C14-REDELIVER")
     maintenance(ctx, "R-C14-REDELIVER")
